@@ -71,14 +71,15 @@ func (l *Lines) Reload(blockIdx int) {
 	copy(lines, newBlock)
 }
 
-func (l *Lines) reloadRange(from int, to int) {
-	if from > to {
-		from, to = to, from
-	}
+// reloadAll renders the whole code again. Unlike Reload, it's correct even
+// if blocks of different lengths changed their positions, as it calculates
+// the line where each block starts again.
+func (l *Lines) reloadAll() {
+	fresh := newLines(l.code)
 
-	for i := from; i <= to; i++ {
-		l.Reload(i)
-	}
+	l.lines = fresh.lines
+	l.blockStarts = fresh.blockStarts
+	l.marks = fresh.marks
 }
 
 func (l *Lines) Move(fromLine int, toLine int) error {
@@ -105,7 +106,7 @@ func (l *Lines) Move(fromLine int, toLine int) error {
 			return fmt.Errorf("block move failed: %w", err)
 		}
 
-		l.reloadRange(fromBlock, toBlock)
+		l.reloadAll()
 	} else {
 		if fromBlock != toBlock {
 			return fmt.Errorf("instructions cannot be moved among blocks")
